@@ -2,8 +2,25 @@
     carry exactly the document's token sequence ([TK (print d) (tokens_of d)]); with parts 1, 2 and
     [ProofsGlue]: the printed text lexes to the token sequence of the document. *)
 From V Require Import Base.Util Gql.Ast Writer.Wop C16.Model C16.Spec C16.SpecLex C16.LexGuard
-  C16.ProofsString C16.ProofsGlue C16.ProofsLex1 C16.ProofsLex2.
+  C16.ProofsString C16.ProofsGlue C16.ProofsLex1 C16.ProofsBlock C16.ProofsLex2.
 Local Open Scope N_scope.
+
+Section Reading.
+Variable val : strtok -> str.
+Variable sn : str -> str.
+Variable blk : str -> bool.
+Hypothesis val_line : forall v, is_multiline v = false -> val (TNormal v) = sn v.
+Hypothesis val_blk : forall v, blk v = true ->
+  is_multiline v = true /\ plain_block v = true /\ forall ind, val (TBlock (rawb ind v)) = sn v.
+Local Notation CK := (ProofsLex2.CK val sn blk).
+Local Notation TK := (ProofsLex2.TK val sn blk).
+Local Notation CK_simple := (ProofsLex2.CK_simple val sn blk).
+Local Notation CK_lit := (ProofsLex2.CK_lit val sn blk).
+Local Notation CK_blk := (ProofsLex2.CK_blk val sn blk).
+Local Notation TK_nil := (ProofsLex2.TK_nil val sn blk).
+Local Notation TK_I := (ProofsLex2.TK_I val sn blk).
+Local Notation TK_D := (ProofsLex2.TK_D val sn blk).
+Local Notation TK_app := (ProofsLex2.TK_app val sn blk).
 
 (** ** chunks *)
 Lemma simple_word x : forallb wordc x = true -> simple x = true.
@@ -15,29 +32,30 @@ Qed.
 Lemma CK_atom x : word_atom x = true -> CK x [TW x].
 Proof.
   unfold word_atom. destruct x as [|c r]; [discriminate|]. intro H.
-  apply CK_simple; [apply simple_word; exact H|].
+  apply (CK_simple (c :: r) [TW (c :: r)] [TW (c :: r)]); [apply simple_word; exact H| |reflexivity].
   pose proof (span_word_app (c :: r) [] H eq_refl) as Hs. rewrite app_nil_r in Hs.
   pose proof (L_word c r []) as LW. rewrite Hs in LW. cbn [fst snd] in LW.
   cbn [forallb] in H. apply andb_true_iff in H as [Hc _]. apply LW; [exact Hc|apply L_nil].
 Qed.
 
-Lemma CK_string x : line_lit x = true -> CK (print_string x) [TS x].
+Lemma CK_string x : str_lit blk x = true -> CK (print_string x) [TS (sn x)].
 Proof.
-  unfold line_lit. intro H. apply andb_true_iff in H as [Hm Hp]. apply negb_true_iff in Hm.
-  apply CK_lit; assumption.
+  unfold str_lit. intro H. apply orb_true_iff in H as [H|H].
+  - unfold line_lit in H. apply andb_true_iff in H as [Hm Hp]. apply negb_true_iff in Hm. apply CK_lit; assumption.
+  - apply CK_blk. exact H.
 Qed.
 
 (** a constant chunk: checked by computation *)
-Ltac ck := apply CK_simple; [reflexivity|apply lex_L; reflexivity].
+Ltac ck := eapply CK_simple; [reflexivity|apply lex_L; reflexivity|reflexivity].
 
 Lemma TK_W0 c r ts : CK c [] -> TK r ts -> TK (W c :: r) ts.
-Proof. intros Hc Hr. exact (TK_W c r [] ts Hc Hr). Qed.
+Proof. intros Hc Hr. exact (ProofsLex2.TK_W val sn blk c r [] ts Hc Hr). Qed.
 Lemma TK_W1 c t r ts : CK c [t] -> TK r ts -> TK (W c :: r) (t :: ts).
-Proof. intros Hc Hr. exact (TK_W c r [t] ts Hc Hr). Qed.
+Proof. intros Hc Hr. exact (ProofsLex2.TK_W val sn blk c r [t] ts Hc Hr). Qed.
 Lemma TK_W2 c t1 t2 r ts : CK c [t1; t2] -> TK r ts -> TK (W c :: r) (t1 :: t2 :: ts).
-Proof. intros Hc Hr. exact (TK_W c r [t1; t2] ts Hc Hr). Qed.
+Proof. intros Hc Hr. exact (ProofsLex2.TK_W val sn blk c r [t1; t2] ts Hc Hr). Qed.
 Lemma TK_WF1 c p n t r ts : CK c [t] -> TK r ts -> TK (WF c p n :: r) (t :: ts).
-Proof. intros Hc Hr. exact (TK_WF c p n r [t] ts Hc Hr). Qed.
+Proof. intros Hc Hr. exact (ProofsLex2.TK_WF val sn blk c p n r [t] ts Hc Hr). Qed.
 Lemma TK_snoc0 a ta c : TK a ta -> CK c [] -> TK (a ++ [W c]) ta.
 Proof.
   intros Ha Hc. rewrite <- (app_nil_r ta). apply TK_app; [exact Ha|]. apply TK_W0; [exact Hc|apply TK_nil].
@@ -102,15 +120,15 @@ Proof.
   intro H. unfold p_variable. apply TK_WF1; [ck|]. apply TK_W1; [apply CK_atom; exact H|apply TK_nil].
 Qed.
 
-Lemma TK_p_string x : line_lit x = true -> TK (p_string x) [TS x].
+Lemma TK_p_string x : str_lit blk x = true -> TK (p_string x) [TS (sn x)].
 Proof. intro H. unfold p_string. apply TK_W1; [apply CK_string; exact H|apply TK_nil]. Qed.
 
-Definition t_field (kv : ident * value) : list tok := t_id (fst kv) ++ TP 58 :: t_value (snd kv).
+Definition t_field (kv : ident * value) : list tok := t_id (fst kv) ++ TP 58 :: t_value sn (snd kv).
 
 Lemma TK_field k pv tv : id_lx k = true -> TK pv tv -> TK (p_ident k ++ W (s ": ") :: pv) (t_id k ++ TP 58 :: tv).
 Proof. intros Hk Hv. apply TK_app; [apply TK_p_ident; exact Hk|]. apply TK_W1; [ck|exact Hv]. Qed.
 
-Lemma TK_p_value : forall v, value_lx v = true -> TK (p_value v) (t_value v).
+Lemma TK_p_value : forall v, (value_lx blk) v = true -> TK (p_value v) ((t_value sn) v).
 Proof.
   induction v as [n p|p l|p l|p x|p b0|p|p x|p vs IH|p fs IH] using value_ind_nested;
     cbn [value_lx p_value t_value]; intro H.
@@ -130,7 +148,7 @@ Proof.
     + change (map p_value (x2 :: r')) with (p_value x2 :: map p_value r'). cbv iota.
       apply TK_app; [apply Hx; exact H1|]. cbn [app]. apply TK_W0; [ck|]. apply IHr. exact H2.
   - apply TK_W1; [ck|]. apply TK_snoc1; [|ck].
-    assert (Hel : Forall (fun kv => id_lx (fst kv) = true /\ TK (p_value (snd kv)) (t_value (snd kv))) fs).
+    assert (Hel : Forall (fun kv => id_lx (fst kv) = true /\ TK (p_value (snd kv)) ((t_value sn) (snd kv))) fs).
     { induction IH as [|x r Hx Hr IHr]; [constructor|].
       cbn [forallb] in H. apply andb_true_iff in H as [H1 H2]. apply andb_true_iff in H1 as [Hi Hv].
       constructor; [split; [exact Hi|apply Hx; exact Hv]|apply IHr; exact H2]. }
@@ -143,45 +161,45 @@ Proof.
       apply TK_field; [exact Hi|]. apply TK_snoc0; [exact Hv|ck].
 Qed.
 
-Lemma TK_p_arg kv : arg_lx kv = true -> TK (p_arg kv) (t_field kv).
+Lemma TK_p_arg kv : (arg_lx blk) kv = true -> TK (p_arg kv) (t_field kv).
 Proof.
   unfold arg_lx, p_arg, t_field. intro H. apply andb_true_iff in H as [Hi Hv].
   apply TK_field; [exact Hi|apply TK_p_value; exact Hv].
 Qed.
 
-Lemma TK_p_arguments a : args_lx a = true -> TK (p_arguments a) (t_args a).
+Lemma TK_p_arguments a : (args_lx blk) a = true -> TK (p_arguments a) ((t_args sn) a).
 Proof.
   unfold args_lx, p_arguments, t_args. intro H.
-  change (fun kv : ident * value => t_id (fst kv) ++ TP 58 :: t_value (snd kv)) with t_field.
+  change (fun kv : ident * value => t_id (fst kv) ++ TP 58 :: (t_value sn) (snd kv)) with t_field.
   apply TK_W1; [ck|]. apply TK_snoc1; [|ck].
   destruct (args_list a) as [|kv1 [|kv2 l]].
   - apply TK_nil.
-  - apply (TK_flat_map p_arg t_field arg_lx); [exact TK_p_arg|exact H].
+  - apply (TK_flat_map p_arg t_field (arg_lx blk)); [exact TK_p_arg|exact H].
   - apply TK_W0; [ck|]. apply TK_I. apply TK_snoc_D.
-    apply (TK_flat_map _ t_field arg_lx); [|exact H].
+    apply (TK_flat_map _ t_field (arg_lx blk)); [|exact H].
     intros kv Hkv. apply TK_snoc0; [apply TK_p_arg; exact Hkv|ck].
 Qed.
 
-Lemma TK_oargs a : oargs_lx a = true -> TK (p_opt p_arguments a) (t_opt t_args a).
+Lemma TK_oargs a : (oargs_lx blk) a = true -> TK (p_opt p_arguments a) (t_opt (t_args sn) a).
 Proof. destruct a; cbn [oargs_lx p_opt t_opt]; [apply TK_p_arguments|intros _; apply TK_nil]. Qed.
 
-Lemma TK_p_directive d : dir_lx d = true -> TK (p_directive d) (t_dir d).
+Lemma TK_p_directive d : (dir_lx blk) d = true -> TK (p_directive d) ((t_dir sn) d).
 Proof.
   unfold dir_lx, p_directive, t_dir. intro H. apply andb_true_iff in H as [Hn Ha].
   apply TK_W1; [ck|]. apply TK_app; [apply TK_p_ident; exact Hn|apply TK_oargs; exact Ha].
 Qed.
 
-Lemma TK_sp_dirs ds : dirs_lx ds = true -> TK (sp_dirs ds) (t_dirs ds).
+Lemma TK_sp_dirs ds : (dirs_lx blk) ds = true -> TK (sp_dirs ds) ((t_dirs sn) ds).
 Proof.
   unfold dirs_lx, sp_dirs, t_dirs. apply TK_flat_map. intros d Hd. apply TK_W0; [ck|apply TK_p_directive; exact Hd].
 Qed.
-Lemma TK_glued_dirs ds : dirs_lx ds = true -> TK (glued_dirs ds) (t_dirs ds).
+Lemma TK_glued_dirs ds : (dirs_lx blk) ds = true -> TK (glued_dirs ds) ((t_dirs sn) ds).
 Proof. unfold dirs_lx, glued_dirs, t_dirs. apply TK_flat_map. exact TK_p_directive. Qed.
 
-Lemma TK_sel_both : forall x, sel_lx x = true -> TK (p_selection x) (t_sel x).
+Lemma TK_sel_both : forall x, (sel_lx blk) x = true -> TK (p_selection x) ((t_sel sn) x).
 Proof.
-  apply (sel_ind_nested (fun x => sel_lx x = true -> TK (p_selection x) (t_sel x))
-                        (fun ss => selset_lx ss = true -> TK (p_selset ss) (t_selset ss))).
+  apply (sel_ind_nested (fun x => (sel_lx blk) x = true -> TK (p_selection x) ((t_sel sn) x))
+                        (fun ss => (selset_lx blk) ss = true -> TK (p_selset ss) ((t_selset sn) ss))).
   - intros al n args ds sel IH H. cbn [sel_lx p_selection t_sel] in *. split_lx H.
     apply TK_app.
     { destruct al as [a|]; cbn [p_opt t_opt oid_lx] in *; [|apply TK_nil].
@@ -204,45 +222,45 @@ Proof.
     cbn [flat_map]. apply TK_app; [|apply IHr; exact H2]. apply TK_snoc0; [apply Hx; exact H1|ck].
 Qed.
 
-Lemma TK_p_selset ss : selset_lx ss = true -> TK (p_selset ss) (t_selset ss).
+Lemma TK_p_selset ss : (selset_lx blk) ss = true -> TK (p_selset ss) ((t_selset sn) ss).
 Proof.
   destruct ss as [p l]. cbn [selset_lx p_selset t_selset]. intro H.
   apply TK_W1; [ck|]. apply TK_I. apply TK_app; [|apply TK_D; apply TK_W1; [ck|apply TK_nil]].
-  apply (TK_flat_map _ t_sel sel_lx); [|exact H].
+  apply (TK_flat_map _ (t_sel sn) (sel_lx blk)); [|exact H].
   intros x Hx. apply TK_snoc0; [apply TK_sel_both; exact Hx|ck].
 Qed.
 
-Lemma TK_default v : ovalue_lx v = true -> TK (p_opt (fun d => W (s " = ") :: p_value d) v) (t_default v).
+Lemma TK_default v : (ovalue_lx blk) v = true -> TK (p_opt (fun d => W (s " = ") :: p_value d) v) ((t_default sn) v).
 Proof.
   destruct v as [x|]; cbn [ovalue_lx p_opt t_default t_opt]; [|intros _; apply TK_nil].
   intro H. apply TK_W1; [ck|apply TK_p_value; exact H].
 Qed.
 
-Lemma TK_typed t v ds : ty_lx t = true -> ovalue_lx v = true -> dirs_lx ds = true ->
+Lemma TK_typed t v ds : ty_lx t = true -> (ovalue_lx blk) v = true -> (dirs_lx blk) ds = true ->
   TK (W (s ": ") :: p_type t ++ p_opt (fun d => W (s " = ") :: p_value d) v ++ sp_dirs ds)
-     (TP 58 :: t_type t ++ t_default v ++ t_dirs ds).
+     (TP 58 :: t_type t ++ (t_default sn) v ++ (t_dirs sn) ds).
 Proof.
   intros Ht Hv Hd. apply TK_W1; [ck|]. apply TK_app; [apply TK_p_type; exact Ht|].
   apply TK_app; [apply TK_default; exact Hv|apply TK_sp_dirs; exact Hd].
 Qed.
 
-Lemma TK_p_vardef v : vardef_lx v = true -> TK (p_vardef v) (t_vardef v).
+Lemma TK_p_vardef v : (vardef_lx blk) v = true -> TK (p_vardef v) ((t_vardef sn) v).
 Proof.
   unfold vardef_lx, p_vardef, t_vardef. intro H. split_lx H.
   apply (TK_app _ [TP 36; TW (vd_name v)]); [apply TK_p_variable; assumption|apply TK_typed; assumption].
 Qed.
 
-Lemma TK_p_vardefs v : forallb vardef_lx (vds_list v) = true -> TK (p_vardefs v) (t_vardefs v).
+Lemma TK_p_vardefs v : forallb (vardef_lx blk) (vds_list v) = true -> TK (p_vardefs v) ((t_vardefs sn) v).
 Proof.
   unfold p_vardefs, t_vardefs. intro H. apply TK_W1; [ck|]. apply TK_snoc1; [|ck].
   destruct (vds_list v) as [|v1 [|v2 l]].
   - apply TK_nil.
-  - apply (TK_flat_map p_vardef t_vardef vardef_lx); [exact TK_p_vardef|exact H].
+  - apply (TK_flat_map p_vardef (t_vardef sn) (vardef_lx blk)); [exact TK_p_vardef|exact H].
   - apply TK_W0; [ck|]. apply TK_I. apply TK_snoc_DW0; [|ck].
-    apply (TK_sep_by _ p_vardef t_vardef vardef_lx); [ck|exact TK_p_vardef|exact H].
+    apply (TK_sep_by _ p_vardef (t_vardef sn) (vardef_lx blk)); [ck|exact TK_p_vardef|exact H].
 Qed.
 
-Lemma TK_p_opdef o : opdef_lx o = true -> TK (p_opdef o) (t_opdef o).
+Lemma TK_p_opdef o : (opdef_lx blk) o = true -> TK (p_opdef o) ((t_opdef sn) o).
 Proof.
   unfold opdef_lx, p_opdef, t_opdef. intro H. split_lx H.
   apply TK_W1; [destruct (op_type o); ck|].
@@ -255,7 +273,7 @@ Proof.
   apply TK_W0; [ck|]. apply TK_snoc0; [apply TK_p_selset; assumption|ck].
 Qed.
 
-Lemma TK_p_fragdef f : fragdef_lx f = true -> TK (p_fragdef f) (t_fragdef f).
+Lemma TK_p_fragdef f : (fragdef_lx blk) f = true -> TK (p_fragdef f) ((t_fragdef sn) f).
 Proof.
   unfold fragdef_lx, p_fragdef, t_fragdef. intro H. split_lx H.
   apply TK_W1; [ck|]. apply TK_app; [apply TK_p_ident; assumption|].
@@ -264,34 +282,34 @@ Proof.
   apply TK_W0; [ck|]. apply TK_snoc0; [apply TK_p_selset; assumption|ck].
 Qed.
 
-Theorem TK_print_opdoc d : opdoc_lx d = true -> TK (print_opdoc d) (tokens_of_opdoc d).
+Theorem TK_print_opdoc d : (opdoc_lx blk) d = true -> TK (print_opdoc d) ((tokens_opdoc sn) d).
 Proof.
   unfold opdoc_lx, print_opdoc, tokens_of_opdoc. apply TK_flat_map.
   intros [o|f|i]; cbn [execdef_lx p_execdef t_execdef]; [apply TK_p_opdef|apply TK_p_fragdef|discriminate].
 Qed.
 
 (** type system *)
-Lemma TK_p_desc d : desc_lx d = true -> TK (p_desc d) (t_desc d).
+Lemma TK_p_desc d : (desc_lx blk) d = true -> TK (p_desc d) ((t_desc sn) d).
 Proof.
   destruct d as [x|]; cbn [desc_lx p_desc t_desc]; [|intros _; apply TK_nil].
   intro H. apply TK_snoc0; [apply TK_p_string; exact H|ck].
 Qed.
 
-Lemma TK_p_inputval i : inputval_lx i = true -> TK (p_inputval i) (t_inputval i).
+Lemma TK_p_inputval i : (inputval_lx blk) i = true -> TK (p_inputval i) ((t_inputval sn) i).
 Proof.
   unfold inputval_lx, p_inputval, t_inputval. intro H. split_lx H.
   apply TK_app; [apply TK_p_desc; assumption|]. apply TK_app; [apply TK_p_ident; assumption|].
   apply TK_typed; assumption.
 Qed.
 
-Lemma TK_oargsdef a : oargsdef_lx a = true -> TK (p_opt p_argsdef a) (t_opt t_argsdef a).
+Lemma TK_oargsdef a : (oargsdef_lx blk) a = true -> TK (p_opt p_argsdef a) (t_opt (t_argsdef sn) a).
 Proof.
   destruct a as [l|]; cbn [oargsdef_lx p_opt t_opt]; [|intros _; apply TK_nil]. intro H.
   unfold p_argsdef, t_argsdef. apply TK_W1; [ck|]. apply TK_snoc1; [|ck].
-  apply (TK_sep_by _ p_inputval t_inputval inputval_lx); [ck|exact TK_p_inputval|exact H].
+  apply (TK_sep_by _ p_inputval (t_inputval sn) (inputval_lx blk)); [ck|exact TK_p_inputval|exact H].
 Qed.
 
-Lemma TK_p_fielddef f : fielddef_lx f = true -> TK (p_fielddef f) (t_fielddef f).
+Lemma TK_p_fielddef f : (fielddef_lx blk) f = true -> TK (p_fielddef f) ((t_fielddef sn) f).
 Proof.
   unfold fielddef_lx, p_fielddef, t_fielddef. intro H. split_lx H.
   apply TK_app; [apply TK_p_desc; assumption|]. apply TK_app; [apply TK_p_ident; assumption|].
@@ -299,7 +317,7 @@ Proof.
   apply TK_W1; [ck|]. apply TK_app; [apply TK_p_type; assumption|apply TK_sp_dirs; assumption].
 Qed.
 
-Lemma TK_p_enumval e : enumval_lx e = true -> TK (p_enumval e) (t_enumval e).
+Lemma TK_p_enumval e : (enumval_lx blk) e = true -> TK (p_enumval e) ((t_enumval sn) e).
 Proof.
   unfold enumval_lx, p_enumval, t_enumval. intro H. split_lx H.
   apply TK_app; [apply TK_p_desc; assumption|]. apply TK_app; [apply TK_p_ident; assumption|apply TK_sp_dirs; assumption].
@@ -340,7 +358,7 @@ Proof.
   apply TK_snoc0; [apply TK_p_ident; exact Hx|ck].
 Qed.
 
-Lemma TK_p_typedef t : typedef_lx t = true -> TK (p_typedef t) (t_typedef t).
+Lemma TK_p_typedef t : (typedef_lx blk) t = true -> TK (p_typedef t) ((t_typedef sn) t).
 Proof.
   destruct t; cbn [typedef_lx p_typedef t_typedef]; intro H; split_lx H;
     (apply TK_app; [apply TK_p_desc; assumption|]).
@@ -348,43 +366,43 @@ Proof.
     apply TK_snoc0; [apply TK_sp_dirs; assumption|ck].
   - apply TK_WF1; [ck|]. apply TK_app; [apply TK_p_ident; assumption|].
     apply TK_app; [apply TK_p_implements; assumption|]. apply TK_app; [apply TK_sp_dirs; assumption|].
-    apply TK_snoc0; [apply (TK_p_body p_fielddef t_fielddef fielddef_lx); [exact TK_p_fielddef|assumption]|ck].
+    apply TK_snoc0; [apply (TK_p_body p_fielddef (t_fielddef sn) (fielddef_lx blk)); [exact TK_p_fielddef|assumption]|ck].
   - apply TK_W1; [ck|]. apply TK_app; [apply TK_p_ident; assumption|].
     apply TK_app; [apply TK_p_implements; assumption|]. apply TK_app; [apply TK_sp_dirs; assumption|].
-    apply TK_snoc0; [apply (TK_p_body p_fielddef t_fielddef fielddef_lx); [exact TK_p_fielddef|assumption]|ck].
+    apply TK_snoc0; [apply (TK_p_body p_fielddef (t_fielddef sn) (fielddef_lx blk)); [exact TK_p_fielddef|assumption]|ck].
   - apply TK_W1; [ck|]. apply TK_app; [apply TK_p_ident; assumption|].
     apply TK_app; [apply TK_sp_dirs; assumption|]. apply TK_snoc0; [apply TK_p_members_def; assumption|ck].
   - apply TK_W1; [ck|]. apply TK_app; [apply TK_p_ident; assumption|].
     apply TK_app; [apply TK_sp_dirs; assumption|].
-    apply TK_snoc0; [apply (TK_p_body p_enumval t_enumval enumval_lx); [exact TK_p_enumval|assumption]|ck].
+    apply TK_snoc0; [apply (TK_p_body p_enumval (t_enumval sn) (enumval_lx blk)); [exact TK_p_enumval|assumption]|ck].
   - apply TK_W1; [ck|]. apply TK_app; [apply TK_p_ident; assumption|].
     apply TK_app; [apply TK_sp_dirs; assumption|].
-    apply TK_snoc0; [apply (TK_p_body p_inputval t_inputval inputval_lx); [exact TK_p_inputval|assumption]|ck].
+    apply TK_snoc0; [apply (TK_p_body p_inputval (t_inputval sn) (inputval_lx blk)); [exact TK_p_inputval|assumption]|ck].
 Qed.
 
-Lemma TK_p_typeext t : typeext_lx t = true -> TK (p_typeext t) (t_typeext t).
+Lemma TK_p_typeext t : (typeext_lx blk) t = true -> TK (p_typeext t) ((t_typeext sn) t).
 Proof.
   destruct t; cbn [typeext_lx p_typeext t_typeext]; intro H; split_lx H.
   - apply TK_W2; [ck|]. apply TK_app; [apply TK_p_ident; assumption|].
     apply TK_snoc0; [apply TK_sp_dirs; assumption|ck].
   - apply TK_W2; [ck|]. apply TK_app; [apply TK_p_ident; assumption|].
     apply TK_app; [apply TK_p_implements; assumption|]. apply TK_app; [apply TK_sp_dirs; assumption|].
-    apply TK_snoc0; [apply (TK_p_body p_fielddef t_fielddef fielddef_lx); [exact TK_p_fielddef|assumption]|ck].
+    apply TK_snoc0; [apply (TK_p_body p_fielddef (t_fielddef sn) (fielddef_lx blk)); [exact TK_p_fielddef|assumption]|ck].
   - apply TK_W2; [ck|]. apply TK_app; [apply TK_p_ident; assumption|].
     apply TK_app; [apply TK_p_implements; assumption|]. apply TK_app; [apply TK_sp_dirs; assumption|].
-    apply TK_snoc0; [apply (TK_p_body p_fielddef t_fielddef fielddef_lx); [exact TK_p_fielddef|assumption]|ck].
+    apply TK_snoc0; [apply (TK_p_body p_fielddef (t_fielddef sn) (fielddef_lx blk)); [exact TK_p_fielddef|assumption]|ck].
   - apply TK_W2; [ck|]. apply TK_app; [apply TK_p_ident; assumption|].
     apply TK_app; [apply TK_sp_dirs; assumption|].
     apply TK_snoc0; [|ck]. apply TK_members_ne; [assumption|]. destruct members; [discriminate|discriminate].
   - apply TK_W2; [ck|]. apply TK_app; [apply TK_p_ident; assumption|].
     apply TK_app; [apply TK_sp_dirs; assumption|].
-    apply TK_snoc0; [apply (TK_p_body p_enumval t_enumval enumval_lx); [exact TK_p_enumval|assumption]|ck].
+    apply TK_snoc0; [apply (TK_p_body p_enumval (t_enumval sn) (enumval_lx blk)); [exact TK_p_enumval|assumption]|ck].
   - apply TK_W2; [ck|]. apply TK_app; [apply TK_p_ident; assumption|].
     apply TK_app; [apply TK_sp_dirs; assumption|].
-    apply TK_snoc0; [apply (TK_p_body p_inputval t_inputval inputval_lx); [exact TK_p_inputval|assumption]|ck].
+    apply TK_snoc0; [apply (TK_p_body p_inputval (t_inputval sn) (inputval_lx blk)); [exact TK_p_inputval|assumption]|ck].
 Qed.
 
-Lemma TK_p_tsdef x : tsdef_lx x = true -> TK (p_tsdef x) (t_tsdef x).
+Lemma TK_p_tsdef x : (tsdef_lx blk) x = true -> TK (p_tsdef x) ((t_tsdef sn) x).
 Proof.
   destruct x as [d|t|d|e|t]; cbn [tsdef_lx p_tsdef t_tsdef]; intro H.
   - split_lx H. unfold p_schemadef. apply TK_app; [apply TK_p_desc; assumption|].
@@ -407,33 +425,59 @@ Proof.
   - apply TK_p_typeext; exact H.
 Qed.
 
-Theorem TK_print_tsdoc d : tsdoc_lx d = true -> TK (print_tsdoc d) (tokens_of_tsdoc d).
+Theorem TK_print_tsdoc d : (tsdoc_lx blk) d = true -> TK (print_tsdoc d) ((tokens_tsdoc sn) d).
 Proof. unfold tsdoc_lx, print_tsdoc, tokens_of_tsdoc. apply TK_flat_map. exact TK_p_tsdef. Qed.
 
-Theorem TK_print_tsdoc_ext d : tsdoc_lx d = true -> TK (print_tsdoc_ext d) (tokens_of_tsdoc d).
+Theorem TK_print_tsdoc_ext d : (tsdoc_lx blk) d = true -> TK (print_tsdoc_ext d) ((tokens_tsdoc sn) d).
 Proof.
   unfold tsdoc_lx, print_tsdoc_ext, tokens_of_tsdoc. apply TK_flat_map.
   intros x Hx. apply TK_snoc0; [apply TK_p_tsdef; exact Hx|ck].
 Qed.
 
-(** ** the printed text lexes to the token sequence of the document *)
-Theorem print_tsdoc_lexes d : tsdoc_lx d = true -> L (just_run (print_tsdoc d)) (tokens_of_tsdoc d).
-Proof. intro H. apply TK_lex_just_run; [apply TK_print_tsdoc; exact H|apply G_print_tsdoc]. Qed.
 
-Theorem print_tsdoc_ext_lexes d : tsdoc_lx d = true -> L (just_run (print_tsdoc_ext d)) (tokens_of_tsdoc d).
-Proof. intro H. apply TK_lex_just_run; [apply TK_print_tsdoc_ext; exact H|apply G_print_tsdoc_ext]. Qed.
+(** the printed text, lexed and read, is the token sequence of the document *)
+Theorem print_tsdoc_lex_with d : tsdoc_lx blk d = true -> lex_with val (just_run (print_tsdoc d)) = Some (tokens_tsdoc sn d).
+Proof. intro H. apply (TK_lex_just_run val sn blk val_line val_blk); [apply TK_print_tsdoc; exact H|apply G_print_tsdoc]. Qed.
+Theorem print_tsdoc_ext_lex_with d : tsdoc_lx blk d = true -> lex_with val (just_run (print_tsdoc_ext d)) = Some (tokens_tsdoc sn d).
+Proof. intro H. apply (TK_lex_just_run val sn blk val_line val_blk); [apply TK_print_tsdoc_ext; exact H|apply G_print_tsdoc_ext]. Qed.
+Theorem print_opdoc_lex_with d : opdoc_lx blk d = true -> lex_with val (just_run (print_opdoc d)) = Some (tokens_opdoc sn d).
+Proof. intro H. apply (TK_lex_just_run val sn blk val_line val_blk); [apply TK_print_opdoc; exact H|apply G_print_opdoc]. Qed.
 
-Theorem print_opdoc_lexes d : opdoc_lx d = true -> L (just_run (print_opdoc d)) (tokens_of_opdoc d).
-Proof. intro H. apply TK_lex_just_run; [apply TK_print_opdoc; exact H|apply G_print_opdoc]. Qed.
+End Reading.
 
-(** the same with the executable lexer *)
-Theorem print_tsdoc_lex d : tsdoc_lx d = true -> lex (just_run (print_tsdoc d)) = Some (tokens_of_tsdoc d).
-Proof. intro H. apply L_lex. apply print_tsdoc_lexes. exact H. Qed.
-Theorem print_tsdoc_ext_lex d : tsdoc_lx d = true -> lex (just_run (print_tsdoc_ext d)) = Some (tokens_of_tsdoc d).
-Proof. intro H. apply L_lex. apply print_tsdoc_ext_lexes. exact H. Qed.
-Theorem print_opdoc_lex d : opdoc_lx d = true -> lex (just_run (print_opdoc d)) = Some (tokens_of_opdoc d).
-Proof. intro H. apply L_lex. apply print_opdoc_lexes. exact H. Qed.
+(** ** the two readings *)
+Lemma raw_line v : is_multiline v = false -> value_nitrogql (TNormal v) = (fun x : str => x) v.
+Proof. reflexivity. Qed.
+Lemma raw_blk v : no_blk v = true ->
+  is_multiline v = true /\ plain_block v = true /\ forall ind, value_nitrogql (TBlock (rawb ind v)) = (fun x : str => x) v.
+Proof. discriminate. Qed.
+Lemma spec_line v : is_multiline v = false -> value_spec (TNormal v) = snorm v.
+Proof. intro H. unfold snorm. change (existsb (N.eqb 10) v) with (is_multiline v). rewrite H. reflexivity. Qed.
+Lemma spec_blk v : block_lit v = true ->
+  is_multiline v = true /\ plain_block v = true /\ forall ind, value_spec (TBlock (rawb ind v)) = snorm v.
+Proof.
+  unfold block_lit. intro H. apply andb_true_iff in H as [H Hc]. apply andb_true_iff in H as [Hm Hp].
+  split; [exact Hm|]. split; [exact Hp|]. intro ind.
+  unfold snorm. change (existsb (N.eqb 10) v) with (is_multiline v). rewrite Hm.
+  apply rawb_spec_value; [|exact Hc]. unfold plain_block in Hp.
+  apply andb_true_iff in Hp as [Hp _]. apply andb_true_iff in Hp as [Hn _]. exact Hn.
+Qed.
 
+(** nitrogql's reading: documents whose strings are single-line *)
+Theorem print_tsdoc_lex d : tsdoc_lx_raw d = true -> lex (just_run (print_tsdoc d)) = Some (tokens_of_tsdoc d).
+Proof. exact (print_tsdoc_lex_with value_nitrogql (fun x => x) no_blk raw_line raw_blk d). Qed.
+Theorem print_tsdoc_ext_lex d : tsdoc_lx_raw d = true -> lex (just_run (print_tsdoc_ext d)) = Some (tokens_of_tsdoc d).
+Proof. exact (print_tsdoc_ext_lex_with value_nitrogql (fun x => x) no_blk raw_line raw_blk d). Qed.
+Theorem print_opdoc_lex d : opdoc_lx_raw d = true -> lex (just_run (print_opdoc d)) = Some (tokens_of_opdoc d).
+Proof. exact (print_opdoc_lex_with value_nitrogql (fun x => x) no_blk raw_line raw_blk d). Qed.
+
+(** the specification's reading: multi-line values too, at any indentation *)
+Theorem print_tsdoc_lex_spec d : tsdoc_lx_spec d = true -> lex_spec (just_run (print_tsdoc d)) = Some (tokens_spec_tsdoc d).
+Proof. exact (print_tsdoc_lex_with value_spec snorm block_lit spec_line spec_blk d). Qed.
+Theorem print_tsdoc_ext_lex_spec d : tsdoc_lx_spec d = true -> lex_spec (just_run (print_tsdoc_ext d)) = Some (tokens_spec_tsdoc d).
+Proof. exact (print_tsdoc_ext_lex_with value_spec snorm block_lit spec_line spec_blk d). Qed.
+Theorem print_opdoc_lex_spec d : opdoc_lx_spec d = true -> lex_spec (just_run (print_opdoc d)) = Some (tokens_spec_opdoc d).
+Proof. exact (print_opdoc_lex_with value_spec snorm block_lit spec_line spec_blk d). Qed.
 (** ** consequence.  A parser that reads token sequences is correct when, on the token sequence of
     any document, it returns a document related to it by [R] (equality modulo positions).  For
     such a parser, documents whose printed texts lex to the same tokens -- in particular a document
@@ -456,10 +500,11 @@ Section AnyCorrectParser.
   (** printing then lexing then parsing gives back the document *)
   Variable print : doc -> str.
   Variable guard : doc -> bool.
-  Hypothesis print_lexes : forall a, guard a = true -> lex (print a) = Some (tokens_of a).
+  Variable lexer : str -> option (list tok).
+  Hypothesis print_lexes : forall a, guard a = true -> lexer (print a) = Some (tokens_of a).
 
   Lemma parse_print_roundtrip a : guard a = true ->
-    exists a', match lex (print a) with Some ts => parse ts | None => None end = Some a' /\ R a' a.
+    exists a', match lexer (print a) with Some ts => parse ts | None => None end = Some a' /\ R a' a.
   Proof. intro H. rewrite (print_lexes a H). apply parse_correct. Qed.
 End AnyCorrectParser.
 
@@ -468,21 +513,45 @@ End AnyCorrectParser.
 Theorem tsdoc_roundtrip_any_parser :
   forall (R : tsdoc -> tsdoc -> Prop) (parse : list tok -> option tsdoc),
   (forall a, exists a', parse (tokens_of_tsdoc a) = Some a' /\ R a' a) ->
-  forall d, tsdoc_lx d = true ->
+  forall d, tsdoc_lx_raw d = true ->
   exists d', match lex (just_run (print_tsdoc_ext d)) with Some ts => parse ts | None => None end = Some d' /\ R d' d.
 Proof.
   intros R parse Hc d H.
-  exact (parse_print_roundtrip tsdoc R tokens_of_tsdoc parse Hc (fun a => just_run (print_tsdoc_ext a)) tsdoc_lx
+  exact (parse_print_roundtrip tsdoc R tokens_of_tsdoc parse Hc (fun a => just_run (print_tsdoc_ext a)) tsdoc_lx_raw lex
            print_tsdoc_ext_lex d H).
 Qed.
 
 Theorem opdoc_roundtrip_any_parser :
   forall (R : opdoc -> opdoc -> Prop) (parse : list tok -> option opdoc),
   (forall a, exists a', parse (tokens_of_opdoc a) = Some a' /\ R a' a) ->
-  forall d, opdoc_lx d = true ->
+  forall d, opdoc_lx_raw d = true ->
   exists d', match lex (just_run (print_opdoc d)) with Some ts => parse ts | None => None end = Some d' /\ R d' d.
 Proof.
   intros R parse Hc d H.
-  exact (parse_print_roundtrip opdoc R tokens_of_opdoc parse Hc (fun a => just_run (print_opdoc a)) opdoc_lx
+  exact (parse_print_roundtrip opdoc R tokens_of_opdoc parse Hc (fun a => just_run (print_opdoc a)) opdoc_lx_raw lex
            print_opdoc_lex d H).
+Qed.
+
+(** the same under the specification's reading, multi-line string values included: the parser is
+    correct on the token sequences whose string values are read through [snorm] *)
+Theorem tsdoc_roundtrip_any_parser_spec :
+  forall (R : tsdoc -> tsdoc -> Prop) (parse : list tok -> option tsdoc),
+  (forall a, exists a', parse (tokens_spec_tsdoc a) = Some a' /\ R a' a) ->
+  forall d, tsdoc_lx_spec d = true ->
+  exists d', match lex_spec (just_run (print_tsdoc_ext d)) with Some ts => parse ts | None => None end = Some d' /\ R d' d.
+Proof.
+  intros R parse Hc d H.
+  exact (parse_print_roundtrip tsdoc R tokens_spec_tsdoc parse Hc (fun a => just_run (print_tsdoc_ext a)) tsdoc_lx_spec lex_spec
+           print_tsdoc_ext_lex_spec d H).
+Qed.
+
+Theorem opdoc_roundtrip_any_parser_spec :
+  forall (R : opdoc -> opdoc -> Prop) (parse : list tok -> option opdoc),
+  (forall a, exists a', parse (tokens_spec_opdoc a) = Some a' /\ R a' a) ->
+  forall d, opdoc_lx_spec d = true ->
+  exists d', match lex_spec (just_run (print_opdoc d)) with Some ts => parse ts | None => None end = Some d' /\ R d' d.
+Proof.
+  intros R parse Hc d H.
+  exact (parse_print_roundtrip opdoc R tokens_spec_opdoc parse Hc (fun a => just_run (print_opdoc a)) opdoc_lx_spec lex_spec
+           print_opdoc_lex_spec d H).
 Qed.
